@@ -404,6 +404,7 @@ pub enum SOp {
     Extend(Vec<u8>),
     PushBytes(Vec<u8>, usize),
     Set(usize, u8),
+    SetImm(usize, u8),
     Clear,
     Copy,
     Rc,
@@ -429,6 +430,7 @@ fn sop_json(op: &SOp) -> (String, Value) {
         SOp::Extend(v) => ("extend".into(), json!([v])),
         SOp::PushBytes(b, n) => ("push_bytes".into(), json!([b, n])),
         SOp::Set(i, v) => ("set".into(), json!([i, v])),
+        SOp::SetImm(i, v) => ("set".into(), json!([i, v, "imm"])),
         SOp::Clear => ("clear".into(), json!([])),
         SOp::Copy => ("copy".into(), json!([])),
         SOp::Rc => ("rc".into(), json!([])),
@@ -468,6 +470,7 @@ fn sop_apply(op: &SOp, src: &DnaString) -> DnaString {
             x.set_mut(*i, *v);
             x
         }
+        SOp::SetImm(i, v) => MerImmut::set(src, *i, *v),
         SOp::Clear => {
             let mut x = src.clone();
             x.clear();
@@ -521,6 +524,8 @@ fn gen_sop(r: &mut Rng, cur_len: usize) -> SOp {
         13 | 14 => {
             if cur_len == 0 {
                 SOp::Push(r.base())
+            } else if r.chance(1, 3) {
+                SOp::SetImm(r.below(cur_len), r.base())
             } else {
                 SOp::Set(r.below(cur_len), r.base())
             }
